@@ -965,7 +965,12 @@ def ordered_arguments(
   if include_var_keyword:
     for name, value in buildable.__arguments__.items():
       param = buildable.__signature_info__.parameters.get(name)
-      if param is None or param.kind == param.VAR_KEYWORD:
+      # A keyword named like a positional-only or variadic parameter can only
+      # be consumed by **kwargs (e.g. `def f(a, /, **kwargs)`: `f(1, a=2)`).
+      if param is None or param.kind not in (
+          param.POSITIONAL_OR_KEYWORD,
+          param.KEYWORD_ONLY,
+      ):
         result[name] = value
 
   if not include_positional:
